@@ -97,17 +97,19 @@ CLAIMED = {
    technique='Coq proof (bit-level lemmas via testbit, pigeonhole on distinct candidates, injectivity of decimal rendering) + pinned-environment differential runs',
    ref='DESIGN 6 C09'),
  'C17': dict(
-   text='Coq theorems (partial): parties run the I/O protocols of IODefs unchanged (move, cross-device move, rewrite = label / add-header, discard; flag is a move) or are a mail '
-        'client renaming / deleting the message; calls are atomic, arbitrarily interleaved, outcomes come from the shared directory state. For EVERY pair and EVERY triple of '
-        'such parties and EVERY schedule: once all have finished the message exists exactly once, intact - or not at all if a deleting party reports success -, no empty or '
-        'partial file remains, a party reporting success owns the surviving copy, and no party modifies a name another party created. Proof by exhaustive exploration checked '
-        'by the kernel (a table closed under every step contains every reachable state). Tied by running mdsort under the interposer with a second party (another mdsort: '
+   text='Coq theorems: parties run the I/O protocols of IODefs unchanged (move, cross-device move, rewrite = label / add-header, discard; flag is a move) or are a mail '
+        'client renaming / deleting the message; calls are atomic, arbitrarily interleaved, outcomes come from the shared directory state. For ANY NUMBER of such parties and '
+        'EVERY schedule (C17_any_number_of_parties): once all have finished the message exists exactly once, intact - or not at all if a deleting party reports success -, no empty or '
+        'partial file remains, a party reporting success owns the surviving copy, and no party modifies a name another party created; every schedule can be extended to a finished '
+        'one (C17_every_schedule_completes). The proof is compositional: each party seen through its own three names moves inside a finite table closed under its own step and '
+        '"somebody else removed the message" (checked by the kernel), and a global invariant says the shared name disappears exactly once, by exactly one party. The exhaustive '
+        'product explorations for pairs and triples are kept. Tied by running mdsort under the interposer with a second party (another mdsort: '
         'move / cross-device move / flag / label / discard, or mv / rm) run to completion before every call k of the first, for all 42 scenario pairs: the final tree is judged '
         'by the property itself and, when the second party met the original message, the outcome must be one the model can reach.',
-   note='Bound: at most three parties (stated in the theorems). Known finding F-16: a second mdsort that WALKS the maildir while the first one\'s uncommitted rewritten copy is '
+   note='Partial because of known finding F-16: a second mdsort that WALKS the maildir while the first one\'s uncommitted rewritten copy is '
         'visible there (copies are created in new/ or cur/, not tmp/) selects it as a message - the message is duplicated; outside the single-message model, exhibited on the '
         'binary and listed in known-findings.txt. Quick tier: one preemption point per binary run; thorough tier adds sampled three-party schedules with two preemption points. Thread-level simultaneity inside the kernel is not exercised.',
-   technique='Coq proof (exhaustive reachable-state exploration by reflection, closure lemma) + schedule-controlled differential runs under the interposer',
+   technique='Coq proof (compositional invariant over any number of parties; per-party reachable-state tables checked by reflection and lifted by a closure lemma) + schedule-controlled differential runs under the interposer',
    ref='DESIGN 6 C17'),
  'C18': dict(
    text='Coq theorems: pathjoin, bounded copy, pathslice (single-pass copy loop with its bufsiz accounting) and the generated name return either an error or '
@@ -156,31 +158,34 @@ CLAIMED = {
    technique='Coq proof (structural) + interposed trace and snapshot comparison over generated configurations',
    ref='DESIGN 6 C05'),
  'C03': dict(
-   text='PARTIAL. Proved in Coq about the faithful model of expr.c/match.c (flat match list with sentinels, pattern entries, pending actions, pass/break markers, '
-        'matches_merge, neg clearing the list): every condition evaluates to its boolean formula whatever is short-circuited or pending; for ARBITRARILY NESTED blocks of '
-        'rules with plain action lists (any conditions) run_rules equals the documented semantics spec_run: a nested block is entered only if its condition holds and the '
-        'first rule matching in depth-first order wins with exactly its actions; for FLAT blocks whose action lists may end with pass or break (any conditions) the '
-        'actions other than move / flag performed are exactly those of the documented semantics (pass keeps and continues, break abandons). The general '
-        'statement (pass / break inside nested blocks, on "clean" evaluations) is stated but NOT proved: it is checked bounded-exhaustively and randomly against the '
-        'documented semantics (spec_run) by the harness. '
+   text='Proved in Coq about the faithful model of expr.c/match.c (flat match list with sentinels, pattern entries, pending actions, pass/break markers, '
+        'matches_merge, negation removing what was appended below it): every condition evaluates to its boolean formula whatever is short-circuited or pending; '
+        'C03_general: for rule trees of ANY nesting and any conditions whose action lists carry pass / break as their last action, on every evaluation in which neither of '
+        'the two pass events occurs (T1: a pass of another block pending at the end of a nested block; T2: the pending-action count used there differs from the block\'s '
+        'own - the known findings F-03) the actions other than move / flag performed are exactly those of the documented semantics spec_run (rules in order, first match '
+        'wins, a nested block entered only if its condition holds, pass keeps the actions and continues, break abandons the block); for nested plain rules run_rules = spec_run '
+        'including the location entries. '
         'Known findings with witness lemmas: T1/T2 (pinned), F-21 location merge; F-02 (a failed negation cleared the whole list) repaired by a fix: commit. Tied by comparing the action list mdsort -d prints, in order, and the '
-        'final tree of a real run with the extracted evaluator on all 8 truth assignments per generated tree.',
-   note='The parser shape (left-nested OR chain, MATCH sentinel, AND chain of actions, and/or equal precedence left-associative, ! tighter) is modelled by hand '
+        'final tree of a real run with the extracted evaluator on all 8 truth assignments per generated tree, and with the documented semantics.',
+   note='Not proved: action lists with pass / break before their last action, and the final location when several move / flag actions are pending (refuted, F-21); both are '
+        'covered by the correspondence only. The parser shape (left-nested OR chain, MATCH sentinel, AND chain of actions, and/or equal precedence left-associative, ! tighter) is modelled by hand '
         '(compile) and tied only by correspondence. EXPR_ERROR propagation, attachment conditions/blocks and plain matchers are outside this check (C11/C13/C04).',
-   technique='Coq proof (structural induction over conditions and rule lists; list-append lemmas for matches_merge) + differential -d / real-run correspondence + spec monitor',
+   technique='Coq proof (induction over rule trees with a delta invariant on the flat match list, freshness of block identifiers, equivalence of two formulations of the documented semantics) + differential -d / real-run correspondence + spec monitor',
    ref='DESIGN 6 C03'),
  'C11': dict(
-   text='Coq theorems (partial): the body a condition or exec stdin body sees is decode_body of the message, or for multipart/alternative of the first text/plain '
+   text='Coq theorems: the body a condition or exec stdin body sees is decode_body of the message, or for multipart/alternative of the first text/plain '
         'part, else the first text/html part, else the raw body; decode_body decodes by the exact Content-Transfer-Encoding value (base64 = RFC 4648 decoding by C16, '
-        'undecodable = error; quoted-printable; otherwise as is); a MIME error makes the body an error; an entity nested beyond the depth limit is an error; the '
+        'undecodable = error; quoted-printable; otherwise as is); a MIME error makes the body an error; '
+        'C11_attachments_of_tree: for EVERY well-formed rendered MIME tree of any shape (fields and bodies as in the header round trip of C08, each multipart\'s Content-Type '
+        'yielding its boundary, no line of a preamble or part being a delimiter line of the enclosing boundary) the attachments are exactly the sub-messages in pre-order, each '
+        'with its own parsed headers and body, if the nesting fits the depth limit, and an error otherwise; the '
         'attachment condition is exists-with-first-error-or-match-wins over the part list, the attachment block is for-each and an error in any part is an error. '
         'Tied by (a) message_get_body / message_get_attachments vs the extracted model on generated MIME texts incl. malformed structure, (b) generated well-formed '
         'trees with ground truth: number and pre-order of parts, every part\'s decoded body, the depth limit, the text/plain preference, (c) the binary with body / '
         'attachment body / attachment header rules, attachment blocks and exec stdin body, judged by platform regexec over the decoded content and by a recording helper.',
-   note='Boundary scanning is proved: on every body in RFC 2046 form in which no other line is a delimiter line of the boundary the part loop returns exactly the part texts in '
-        'order and sees the terminator (C11_parts_of_body), and one level of flattening given what each part parses to (C11_flatten_step). NOT proved: the closed form over whole '
-        'rendered trees (needs the header round trip of every part); that is covered by the ground-truth monitor only. Charset conversion does not exist in mdsort and is not part of the property.',
-   technique='Coq proof (case analysis over the body-selection and decoding functions, induction over the part list) + differential runs against generated MIME trees with ground truth',
+   note='Outside well-formed trees (missing terminator, colliding boundaries, header defects of F-10) nothing is proved; those inputs are covered by the correspondence and the '
+        'ground-truth monitor. Charset conversion does not exist in mdsort and is not part of the property.',
+   technique='Coq proof (induction over MIME trees composing the header round trip with the boundary-scanning theorem; case analysis over body selection and decoding) + differential runs against generated MIME trees with ground truth',
    ref='DESIGN 6 C11'),
  'C12': dict(
    text='Coq theorems about the model of match.c interpolate / isbackref (incl. strtoul blanks, signs, INT_MAX) / ismacro / match_backref: interpolation terminates on '
